@@ -1,21 +1,24 @@
 /-
-  C08 — theorems about the SOURCE of the fixed-width helpers the Montgomery layer rests on, regenerated from /repo on every
-  run by tools/translate.py (CB/Gen/Modular.lean).  Kept in a module of its own (nothing imports it) so that a change in one
+  C08 — theorems about the SOURCE of Montgomery reduction and of the fixed-width helpers the Montgomery layer rests on,
+  regenerated from /repo on every run by tools/translate.py (CB/Gen/Modular.lean).  Kept in a module of its own (nothing imports it) so that a change in one
   of these Rust functions breaks exactly this property's obligations and no other module's build.  Audited together with
   CB/Props/C08.lean by tools/runner.py.
 -/
 import CB.Props.C08
-import CB.Lemmas.GenModularMonty
+import CB.Lemmas.GenRedc
 namespace CB.P08G
 open CB CB.Monty
 
-/-! ## T08.G — the SOURCE of the Montgomery-form add / double / sub / neg and of the final step of `montgomery_reduction`
+/-! ## T08.G — the SOURCE of the Montgomery-form add / double / sub / neg, of `montgomery_reduction_inner` and `montgomery_reduction`
 
 The Montgomery model (CB/Model/Monty.lean) computes `add_montgomery_form` / `double_montgomery_form` / `sub_montgomery_form` /
 `neg` with `addMod` / `doubleMod` / `subMod` / `negMod`, and ends `montgomery_reduction` with
 `upper.sub_mod_with_carry(meta_carry, &modulus, &modulus)`.  Those model functions ARE the translated source
 (`Gen.Modular.Form.*`, `Gen.Modular.Uint.*`: src/modular/{add,sub}.rs, src/uint/{add_mod,sub_mod,neg_mod}.rs as they read NOW),
-for every limb count.  The nested loops of `montgomery_reduction_inner` itself are not translated (see notes/C08.md). -/
+for every limb count.  `Gen.Modular.Reduction.montgomery_reduction_inner LIMBS upper lower modulus mod_neg_inv` is the translation of
+the `&mut`-slice function of src/modular/reduction.rs: it returns `(upper', lower', meta_carry)`; its three `while` loops (two
+nested in the third, sharing the counter `j`, indices `lower[i + j]`, `upper[i + j - nlimbs]`) are recursive auxiliary
+definitions that re-test the loop condition every round. -/
 
 /-- the Montgomery model's fixed-width helpers are the translated source, for every limb count -/
 theorem monty_helpers_model_is_translated_source (a b m : List (BitVec 64)) (carry : BitVec 64)
@@ -36,43 +39,69 @@ theorem monty_helpers_model_is_translated_source (a b m : List (BitVec 64)) (car
     GenModular.subMod_bridge a b m hab ham, GenModular.negMod_bridge a m ham,
     GenModular.subModWithCarry_bridge a carry b m hab ham⟩
 
-/-- the final step of `montgomery_reduction`: whatever limbs `up` and carry word `mc` the inner loops produce, the model's
-    result is the TRANSLATED `up.sub_mod_with_carry(mc, &modulus, &modulus)` -/
-theorem redc_final_step_is_translated_source (lo hi ms up : List (BitVec 64)) (k : Nat) (mc : BitVec 64)
-    (hul : up.length = ms.length)
-    (hin : redcInner (GenChains.nats hi) (GenChains.nats lo) (GenChains.nats ms) k = (GenChains.nats up, mc.toNat)) :
-    montgomeryReduction (GenChains.nats lo) (GenChains.nats hi) (GenChains.nats ms) k =
-      GenChains.nats (Gen.Modular.Uint.sub_mod_with_carry up.length up mc ms ms) := by
-  unfold montgomeryReduction
-  rw [hin]
-  dsimp only
-  rw [GenModular.monty_subModWithCarry_eq]
-  exact GenModular.subModWithCarry_bridge up mc ms ms hul hul
+/-- the hand-written model of Montgomery reduction (what T08.1 is proved about) IS the translated source: the new `upper` limbs
+    and `meta_carry` of `montgomery_reduction_inner`, and the result of `montgomery_reduction`, for every limb count, all
+    operands of the modulus' width, every `mod_neg_inv` word -/
+theorem redc_model_is_translated_source (lo hi ms : List (BitVec 64)) (k : BitVec 64) (L : Nat)
+    (hll : lo.length = ms.length) (hhl : hi.length = ms.length) :
+    redcInner (GenChains.nats hi) (GenChains.nats lo) (GenChains.nats ms) k.toNat =
+      (GenChains.nats (Gen.Modular.Reduction.montgomery_reduction_inner L hi lo ms k).1,
+       (Gen.Modular.Reduction.montgomery_reduction_inner L hi lo ms k).2.2.toNat) ∧
+    montgomeryReduction (GenChains.nats lo) (GenChains.nats hi) (GenChains.nats ms) k.toNat =
+      GenChains.nats (Gen.Modular.Reduction.montgomery_reduction ms.length (lo, hi) ms k) :=
+  ⟨(GenRedc.redcInner_bridge hi lo ms k L hhl hll).1, GenRedc.montgomeryReduction_bridge lo hi ms k hll hhl⟩
 
-/-- T08.1 (`redc_spec`) restated with the TRANSLATED final step: for `k·m ≡ −1 (mod 2^64)` and `T = lo + B^n·hi < m·B^n`, the
-    translated `sub_mod_with_carry` applied to the inner loops' output is canonical and `r·B^n ≡ T (mod m)` -/
-theorem src_redc_final_step_exact (lo hi ms up : List (BitVec 64)) (k : Nat) (mc : BitVec 64)
-    (hll : lo.length = ms.length) (hhl : hi.length = ms.length) (hul : up.length = ms.length)
-    (hk : (k * val (GenChains.nats ms) + 1) % B = 0)
-    (hT : val (GenChains.nats lo) + B ^ ms.length * val (GenChains.nats hi) < val (GenChains.nats ms) * B ^ ms.length)
-    (hin : redcInner (GenChains.nats hi) (GenChains.nats lo) (GenChains.nats ms) k = (GenChains.nats up, mc.toNat)) :
-    val (GenChains.nats (Gen.Modular.Uint.sub_mod_with_carry up.length up mc ms ms)) < val (GenChains.nats ms) ∧
-    (val (GenChains.nats (Gen.Modular.Uint.sub_mod_with_carry up.length up mc ms ms)) * B ^ ms.length)
-        % val (GenChains.nats ms)
-      = (val (GenChains.nats lo) + B ^ ms.length * val (GenChains.nats hi)) % val (GenChains.nats ms) := by
-  have h := P08.redc_spec (GenChains.nats lo) (GenChains.nats hi) (GenChains.nats ms) k (GenChains.nats_WF lo)
-    (GenChains.nats_WF hi) (GenChains.nats_WF ms) (by rw [GenChains.nats_length, GenChains.nats_length, hll])
+/-- T08.1 (`redc_inner_spec`) for the TRANSLATED `montgomery_reduction_inner`: for `k·m ≡ −1 (mod 2^64)` and
+    `T = lower + B^n·upper < m·B^n`, `X = upper' + B^n·meta_carry` satisfies `X·B^n = T + U·m` for some `U < B^n`, `X < 2m`,
+    `meta_carry ≤ 1`, and `upper'` has `n` limbs -/
+theorem src_redc_inner_exact (lo hi ms : List (BitVec 64)) (k : BitVec 64) (L : Nat)
+    (hll : lo.length = ms.length) (hhl : hi.length = ms.length)
+    (hk : (k.toNat * val (GenChains.nats ms) + 1) % B = 0)
+    (hT : val (GenChains.nats lo) + B ^ ms.length * val (GenChains.nats hi) < val (GenChains.nats ms) * B ^ ms.length) :
+    ∃ U, U < B ^ ms.length ∧
+      (val (GenChains.nats (Gen.Modular.Reduction.montgomery_reduction_inner L hi lo ms k).1) +
+          B ^ ms.length * (Gen.Modular.Reduction.montgomery_reduction_inner L hi lo ms k).2.2.toNat) * B ^ ms.length
+        = val (GenChains.nats lo) + B ^ ms.length * val (GenChains.nats hi) + U * val (GenChains.nats ms) ∧
+      val (GenChains.nats (Gen.Modular.Reduction.montgomery_reduction_inner L hi lo ms k).1) +
+          B ^ ms.length * (Gen.Modular.Reduction.montgomery_reduction_inner L hi lo ms k).2.2.toNat
+        < 2 * val (GenChains.nats ms) ∧
+      (Gen.Modular.Reduction.montgomery_reduction_inner L hi lo ms k).1.length = ms.length ∧
+      (Gen.Modular.Reduction.montgomery_reduction_inner L hi lo ms k).2.2.toNat ≤ 1 := by
+  have ⟨U, hU, e, lt, _, _, c⟩ := P08.redc_inner_spec (GenChains.nats lo) (GenChains.nats hi) (GenChains.nats ms) k.toNat
+    (GenChains.nats_WF lo) (GenChains.nats_WF hi) (GenChains.nats_WF ms)
+    (by rw [GenChains.nats_length, GenChains.nats_length, hll])
     (by rw [GenChains.nats_length, GenChains.nats_length, hhl]) hk (by rw [GenChains.nats_length]; exact hT)
-  rw [redc_final_step_is_translated_source lo hi ms up k mc hul hin, GenChains.nats_length] at h
-  exact ⟨h.1, h.2.1⟩
+  obtain ⟨hin, hlen⟩ := GenRedc.redcInner_bridge hi lo ms k L hhl hll
+  rw [hin, GenChains.nats_length] at e lt
+  rw [hin] at c
+  rw [GenChains.nats_length] at hU
+  exact ⟨U, hU, e, lt, hlen, c⟩
 
-/-- non-vacuity: the hypotheses of `src_redc_final_step_exact` hold for 2 limbs, `m = 2^64 + 1` (`k = 2^64 − 1`),
-    `T = m·B² − 1`; the translated final step returns `2^64` -/
-example : redcInner (GenChains.nats [0#64, 1#64]) (GenChains.nats [~~~0#64, ~~~0#64]) (GenChains.nats [1#64, 1#64]) WMAX =
-      (GenChains.nats [1#64, 2#64], (0#64).toNat) ∧
-    Gen.Modular.Uint.sub_mod_with_carry 2 [1#64, 2#64] 0#64 [1#64, 1#64] [1#64, 1#64] = [0#64, 1#64] := by
-  constructor
-  · decide +kernel
-  · decide
+/-- T08.1 (`redc_spec`) for the TRANSLATED `montgomery_reduction`: the result `r` is canonical (`< m`), `r·B^n ≡ T (mod m)`, and
+    has `n` limbs -/
+theorem src_montgomery_reduction_exact (lo hi ms : List (BitVec 64)) (k : BitVec 64)
+    (hll : lo.length = ms.length) (hhl : hi.length = ms.length)
+    (hk : (k.toNat * val (GenChains.nats ms) + 1) % B = 0)
+    (hT : val (GenChains.nats lo) + B ^ ms.length * val (GenChains.nats hi) < val (GenChains.nats ms) * B ^ ms.length) :
+    val (GenChains.nats (Gen.Modular.Reduction.montgomery_reduction ms.length (lo, hi) ms k)) < val (GenChains.nats ms) ∧
+    (val (GenChains.nats (Gen.Modular.Reduction.montgomery_reduction ms.length (lo, hi) ms k)) * B ^ ms.length)
+        % val (GenChains.nats ms)
+      = (val (GenChains.nats lo) + B ^ ms.length * val (GenChains.nats hi)) % val (GenChains.nats ms) ∧
+    (Gen.Modular.Reduction.montgomery_reduction ms.length (lo, hi) ms k).length = ms.length := by
+  have ⟨l, e, _, n⟩ := P08.redc_spec (GenChains.nats lo) (GenChains.nats hi) (GenChains.nats ms) k.toNat
+    (GenChains.nats_WF lo) (GenChains.nats_WF hi) (GenChains.nats_WF ms)
+    (by rw [GenChains.nats_length, GenChains.nats_length, hll])
+    (by rw [GenChains.nats_length, GenChains.nats_length, hhl]) hk (by rw [GenChains.nats_length]; exact hT)
+  rw [GenRedc.montgomeryReduction_bridge lo hi ms k hll hhl] at l e n
+  rw [GenChains.nats_length] at e
+  exact ⟨l, e, by simpa [GenChains.nats] using n⟩
+
+/-- non-vacuity / evaluation: the translated functions run — 2 limbs, `m = 2^64 + 1` (`k = 2^64 − 1`), `T = m·B² − 1`
+    (the example of T08.1): the inner loops leave `upper' = [1, 2]`, `meta_carry = 0`, the result is `2^64` -/
+example : (Gen.Modular.Reduction.montgomery_reduction_inner 2 [0#64, 1#64] [~~~0#64, ~~~0#64] [1#64, 1#64] (~~~0#64)).1 =
+      [1#64, 2#64] ∧
+    (Gen.Modular.Reduction.montgomery_reduction_inner 2 [0#64, 1#64] [~~~0#64, ~~~0#64] [1#64, 1#64] (~~~0#64)).2.2 = 0#64 ∧
+    Gen.Modular.Reduction.montgomery_reduction 2 ([~~~0#64, ~~~0#64], [0#64, 1#64]) [1#64, 1#64] (~~~0#64) = [0#64, 1#64] := by
+  decide
 
 end CB.P08G
